@@ -26,18 +26,21 @@ InRect(dx, dy, w, h, k, closed) ==
   LET t == Ang(k)  xr == dx * t[1] + dy * t[2]  yr == dy * t[1] - dx * t[2]
   IN IF closed THEN 2 * Abs(xr) <= w * t[3] /\ 2 * Abs(yr) <= h * t[3] ELSE 2 * Abs(xr) < w * t[3] /\ 2 * Abs(yr) < h * t[3]
 \* shape record: [kind, p1..p4 (sizes in 1/Q px), ang]
-InShape(sh, dx, dy, U, closed) ==          \* dx, dy in units 1/(U*Q) px; sizes scaled by U
-  CASE sh.kind = "circle"  -> InEllipse(dx, dy, sh.p1 * U, sh.p1 * U, 0, closed)
-    [] sh.kind = "ellipse" -> InEllipse(dx, dy, sh.p1 * U, sh.p2 * U, sh.ang, closed)
-    [] sh.kind = "rect"    -> InRect(dx, dy, sh.p1 * U, sh.p2 * U, sh.ang, closed)
-    [] sh.kind = "cann"    -> InEllipse(dx, dy, sh.p2 * U, sh.p2 * U, 0, closed) /\ ~InEllipse(dx, dy, sh.p1 * U, sh.p1 * U, 0, ~closed)
-    [] sh.kind = "eann"    -> InEllipse(dx, dy, sh.p2 * U, sh.p4 * U, sh.ang, closed) /\ ~InEllipse(dx, dy, sh.p1 * U, sh.p3 * U, sh.ang, ~closed)
-    [] sh.kind = "rann"    -> InRect(dx, dy, sh.p2 * U, sh.p4 * U, sh.ang, closed) /\ ~InRect(dx, dy, sh.p1 * U, sh.p3 * U, sh.ang, ~closed)
+\* mode: "lower" (outer strict, inner closed), "upper" (outer closed, inner strict), "impl" (both strict: what the kernels compute
+\* when the arithmetic is exact, i.e. for circles and unrotated shapes with dyadic parameters)
+InShape(sh, dx, dy, U, mode) ==          \* dx, dy in units 1/(U*Q) px; sizes scaled by U
+  LET co == mode = "upper"   ci == mode = "lower" IN
+  CASE sh.kind = "circle"  -> InEllipse(dx, dy, sh.p1 * U, sh.p1 * U, 0, co)
+    [] sh.kind = "ellipse" -> InEllipse(dx, dy, sh.p1 * U, sh.p2 * U, sh.ang, co)
+    [] sh.kind = "rect"    -> InRect(dx, dy, sh.p1 * U, sh.p2 * U, sh.ang, co)
+    [] sh.kind = "cann"    -> InEllipse(dx, dy, sh.p2 * U, sh.p2 * U, 0, co) /\ ~InEllipse(dx, dy, sh.p1 * U, sh.p1 * U, 0, ci)
+    [] sh.kind = "eann"    -> InEllipse(dx, dy, sh.p2 * U, sh.p4 * U, sh.ang, co) /\ ~InEllipse(dx, dy, sh.p1 * U, sh.p3 * U, sh.ang, ci)
+    [] sh.kind = "rann"    -> InRect(dx, dy, sh.p2 * U, sh.p4 * U, sh.ang, co) /\ ~InRect(dx, dy, sh.p1 * U, sh.p3 * U, sh.ang, ci)
 \* number of the s*s sub-pixel centres of pixel <<row, col>> inside the shape centred at (cx, cy) (1/Q px)
-Count(sh, cx, cy, row, col, s, Q, closed) ==
+Count(sh, cx, cy, row, col, s, Q, mode) ==
   LET U == 2 * s IN
   Cardinality({jk \in (0..(s - 1)) \X (0..(s - 1)) :
-      InShape(sh, (col * U + 2 * jk[1] + 1 - s) * Q - cx * U, (row * U + 2 * jk[2] + 1 - s) * Q - cy * U, U, closed)})
+      InShape(sh, (col * U + 2 * jk[1] + 1 - s) * Q - cx * U, (row * U + 2 * jk[2] + 1 - s) * Q - cy * U, U, mode)})
 \* squared half-extents of the (outer) shape along x and y, as <<numerator, denominator-root>>: extent^2 = num / den^2 (1/Q px)
 OuterA(sh) == IF sh.kind \in {"cann", "eann", "rann"} THEN sh.p2 ELSE sh.p1
 OuterB(sh) == CASE sh.kind \in {"circle"} -> sh.p1 [] sh.kind = "cann" -> sh.p2 [] sh.kind \in {"ellipse", "rect"} -> sh.p2 [] OTHER -> sh.p4
